@@ -14,7 +14,7 @@ import (
 
 func init() {
 	register("C14", &propDef{
-		Run: checkC14,
+		Run:         checkC14,
 		Explanation: "Typestate of the exec.Cmd wrapped by CmdShell, decided on the SSA of lib/simpleshell. (1) Both of the child's output descriptors go through pipes obtained from StdoutPipe and StderrPipe (cmd.Stdout/cmd.Stderr are never assigned, so os/exec starts no copier of its own), and each pipe is read to EOF by a copy into the shell's output writer. (2) No Run/Output/CombinedOutput is called on a command with pipes, and Wait — which closes the pipes — is dominated by the join of the goroutines reading them. (3) The output writer is closed after that join and before Wait (Wait blocks on the stdin copier until the input ends, which in turn waits for the far side to see the output end), and nowhere else except when Start fails. (4) Wait's error is the value Go returns. (5) SetInput stores its reader unchanged into cmd.Stdin. Together: every byte written before exit is copied before the output reports EOF, however slowly it is read; EOF follows exit and drain; failure is reported. Kernel pipe buffering and grandchildren holding descriptors are outside.",
 		Assumptions: []string{"os/exec: StdoutPipe/StderrPipe readers are closed by Wait; reading them to EOF before Wait is the documented correct use", "io.Copy returns only at EOF or error"},
 	})
@@ -278,7 +278,9 @@ func checkC14(p *Prog, r *Report) {
 			}
 			nret++
 			got := false
-			for _, x := range valueRoots(retVal(ret, 0), func(n string) bool { return "cmp.Or" == n || strings.HasPrefix(n, "cmp.Or[") || "errors.Join" == n || "fmt.Errorf" == n }) {
+			for _, x := range valueRoots(retVal(ret, 0), func(n string) bool {
+				return "cmp.Or" == n || strings.HasPrefix(n, "cmp.Or[") || "errors.Join" == n || "fmt.Errorf" == n
+			}) {
 				if "call" == x.Kind && x.V == ssa.Value(wait) {
 					got = true
 				}
